@@ -2,6 +2,7 @@ SPECIFICATION TraceSpec
 CONSTANT Kind = "single"
 CONSTANT MaxDepth = 0
 CONSTANT Deviation = "none"
+CONSTANT Setters = TRUE
 CONSTANT Export = FALSE
 POSTCONDITION TraceAccepted
 CHECK_DEADLOCK FALSE
